@@ -487,6 +487,7 @@ func SpecMatch(pattern string, hasWild bool, s string) bool {
 //@ func (*Cache).AddConn
 //@   requires c != nil && c.conns != nil && conn != nil
 //@   ensures[C10,C11] has(c.conns, conn.CID()) && c.conns[conn.CID()] == conn
+//@   assigns elems(c.conns)
 //@   safety[C15]
 //@ func (*Cache).RemoveConn
 //@   requires c != nil && conn != nil
